@@ -51,14 +51,17 @@ def run(e: Engine, rep: Report):
 
 
 def _is_copy(e: Engine, n: Node) -> bool:
-    return n.kind in ('call', 'call_enter') and e.call_name(n) in (
-        'copy', '_append_envelope_copy')
+    # (with the helper inlined the envelope.copy() inside it is the event;
+    # a helper that is not inlined counts as the copy it makes)
+    return (n.kind == 'call' and e.call_name(n) in (
+        'copy', '_append_envelope_copy'))
 
 
 def p1(e: Engine, rep: Report):
     # RecipientSplit.apply
     ctx = e.method_ctx(SPLIT + '.RecipientSplit', 'apply')
-    g = e.build(ctx, raises=lambda b, n, r: set())
+    g = e.build(ctx, raises=lambda b, n, r: set(),
+                inline=e.inline_same_self(), max_depth=3)
     where = ctx.func.qname
     rep.functions.add(where)
     loops = [n for n in g.of_kind('iter') if isinstance(n.ast, ast.For) and
@@ -97,9 +100,11 @@ def p1(e: Engine, rep: Report):
     rep.evaluations += 1
     none_rets = [r for r in rets if r.ast.value is None or (
         isinstance(r.ast.value, ast.Constant) and r.ast.value.value is None)]
-    rep.check(bool(none_rets) and all(
+    # (a split that never keeps the original - one copy for a single
+    # recipient - loses nothing)
+    rep.check(all(
         any(p and ' <= 1' in k and 'len(' in k for p, k in (fx.at(r) or ()))
-        for r in none_rets), 'P1', where,
+        for r in none_rets if fx.at(r) is not None), 'P1', where,
         'the original is kept only when there is nothing to split',
         'RecipientSplit.apply can return None (keep the original) for a '
         'message with several recipients, or never does',
@@ -128,13 +133,21 @@ def p1(e: Engine, rep: Report):
                   reason='exactly one append on every path of the body')
     # RecipientDomainSplit.apply
     ctx = e.method_ctx(SPLIT + '.RecipientDomainSplit', 'apply')
-    g = e.build(ctx, raises=lambda b, n, r: set())
+    g = e.build(ctx, raises=lambda b, n, r: set(),
+                inline=e.inline_same_self(deny=['_get_domain_groups',
+                                                '_get_domain']),
+                max_depth=3)
     where = ctx.func.qname
     rep.functions.add(where)
     loops = [n for n in g.of_kind('iter') if isinstance(n.ast, ast.For)]
     srcs = sorted(ast.unparse(lp.ast.iter) for lp in loops)
     rep.evaluations += 1
-    rep.check(len(loops) == 2 and any('groups' in s for s in srcs) and
+    if not loops:
+        rep.error('cannot read how RecipientDomainSplit.apply turns the '
+                  'groups and the bad recipients into envelopes (no '
+                  'emitting loops)')
+    else:
+      rep.check(len(loops) == 2 and any('groups' in s for s in srcs) and
               any('bad' in s for s in srcs), 'P1', where,
               'copies are made for every group and every bad recipient',
               'apply iterates over %s instead of the groups and the bad '
@@ -153,8 +166,9 @@ def p1(e: Engine, rep: Report):
     rets = [n for n in g.of_kind('stmt') if isinstance(n.ast, ast.Return)
             and (n.ast.value is None)]
     rep.evaluations += 1
-    rep.check(bool(rets) and all(any(
-        p and ' <= 1' in k for p, k in (fx.at(r) or ())) for r in rets),
+    rep.check(all(any(
+        p and ' <= 1' in k for p, k in (fx.at(r) or ())) for r in rets
+        if fx.at(r) is not None),
         'P1', where, 'the original is kept only for a single group',
         'apply can keep the original although several groups exist',
         reason='return None only under len(groups)+len(bad) <= 1',
@@ -364,13 +378,20 @@ def p3(e: Engine, rep: Report):
 
 def p4(e: Engine, rep: Report):
     ctx = e.method_ctx('slimta.policy.forward.Forward', 'apply')
-    g = e.build(ctx, raises=lambda b, n, r: set())
+    g = e.build(ctx, raises=lambda b, n, r: set(),
+                inline=e.inline_same_self(), max_depth=3)
     fx = e.facts(g)
     where = ctx.func.qname
     rep.functions.add(where)
+
+    def container(n):
+        try:
+            return canon(n.ast.targets[0].value, n.frame)
+        except Exception:
+            return ast.unparse(n.ast.targets[0].value)
     ws = [n for n in g.of_kind('stmt') if isinstance(n.ast, ast.Assign) and
           isinstance(n.ast.targets[0], ast.Subscript) and
-          'recipients' in ast.unparse(n.ast.targets[0].value)]
+          'recipients' in container(n)]
     if not ws:
         rep.error('anchor vanished: recipient rewrite in Forward.apply')
     inner = [n for n in g.of_kind('iter') if isinstance(n.ast, ast.For) and
@@ -378,8 +399,11 @@ def p4(e: Engine, rep: Report):
     for n in ws:
         rep.evaluations += 2
         st = fx.at(n) or frozenset()
-        ok = any(p and k.startswith('0 < ') and 'change' in k
-                 for p, k in st)
+        # (a substitution count is never negative: != 0 is > 0)
+        ok = any('change' in k and (
+            (p and k.startswith('0 < ')) or
+            (not p and k.endswith(' == 0')) or
+            (p and k.endswith(' != 0'))) for p, k in st)
         rep.check(ok, 'P4', where, 'recipient rewritten only by a matching '
                   'rule', 'a recipient is overwritten although the rule '
                   'made no substitution: unmatched recipients are changed',
